@@ -2532,10 +2532,16 @@ class C19(Prop):
                         # the same with a ZERO-SIZED item type that has a destructor (cz / gz)
                         lines.append(f'DR q{n} cz {N} {boxed} {mode} {lo} {hi} I {inp}')
                         n += 1
+                        # … and with a 328-byte item type: [T; 3] below, [T; 4] and [T; 7] above 1 KiB (cf / gf)
+                        if N >= 3:
+                            lines.append(f'DR q{n} cf {N} {boxed} {mode} {lo} {hi} I {inp}')
+                            n += 1
             for mode in ('parse', 'check'):
                 lines.append(f'DR q{n} ga {N} 0 {mode} 0 - I {inp}')
                 n += 1
                 lines.append(f'DR q{n} gz {N} 0 {mode} 0 - I {inp}')
+                n += 1
+                lines.append(f'DR q{n} gf {N} 0 {mode} 0 - I {inp}')
                 n += 1
         tinp = inputs_all(maxlen, [gen.A, gen.B, 99])
         for stream in (0, 1):
